@@ -121,7 +121,7 @@ def rand_dispersive(rng):
 
 def workload(ctx, lentil):
     rng = ctx.rng
-    n = 70 if ctx.tier == 'quick' else 500
+    n = ctx.count(70, 500)
     hi = 18 if ctx.tier == 'quick' else 32
 
     # ---- (i) representations ------------------------------------------------
